@@ -371,6 +371,7 @@ func (check) Assumptions() []string {
 		"sequences: pinned and compared - idx argument or index segment v within [0, MaxIdx]: the call succeeds, the list has max(L, v+1) slots, slot v holds the value, the names next to the list are unchanged; a segment that is a name (also a literal above MaxIdx that is below L): the list keeps its length and the name is stored byte for byte next to it with the value; idx argument above MaxIdx and beyond slot L: the call fails and the list keeps its length; getters never grow a list. NOT pinned and only bounded: whether an idx argument above MaxIdx that addresses an existing slot or slot L is accepted (recorded in monitors seq_above_max_*), Remove's effect on the length (L or L-1), the content of the other slots after Merge/flag calls (Merge pads with nil and the padding overwrites lower slots - not a C20 matter)",
 		"sequences: list merge policies (Append/Prepend/ReplaceValues) are not used - under them one index key legitimately adds its whole padded list; the default MaxIdx is not exercised (MaxIdx is always explicit); values are read back with Unpack into []interface{} / map[string]interface{} of the list holder reached with Child(name, -1) / Child(\"\", j) under default options (holder names are plain words)",
 		"option lists (optlist.go): options are applied in the order given, a later MaxIdx / EnableNumKeys replaces the value of an earlier one ('the configured maximum index', 'numeric keys are not enabled' = what the list says at its end), and an option value may be used in any number of calls; PathSep is only repeated with the same separator, the other options in the list (VarExp, StructTag(\"config\"), ValidatorTag(\"validate\"), MetaData) do not concern keys; every list contains MaxIdx and EnableNumKeys at least once (defaults are not exercised); limits stay below 2300 and a key whose numeric reading is above 1100 is a name under every occurrence. A deviation is named after the occurrence that was taken instead of the last one only if the canonical list PathSep, MaxIdx, EnableNumKeys of the effective setting is silent on the same calls",
+		"keys of expanded objects (expand.go): an object that a ${...} setting expands to at reading time (Resolve answer, or a splice whose pieces come from a setting, an Env setting or a default) is created by the READING call, so that call's MaxIdx / EnableNumKeys / PathSep classify its keys like map keys given to NewFrom with the same options (the options the config was built with and the defaults do not); precondition per scenario: parse.Value reads the text as the wrapper around an object with exactly the member key: value; a default can not hold '}' (expression syntax, not C20's), so a default only supplies the value; keys inside expressions are restricted to [0-9A-Za-z_+-.]; a legitimate index above 300 is not read",
 		"safety: the grow hook aborts (panics inside harness.Safe) any list growth beyond what the oracle allows for the operation, so a wrongly accepted index never allocates",
 	}
 }
@@ -1634,6 +1635,11 @@ func (check) Run(seed int64, tier string, idx int, verbose bool) harness.Result 
 	w.law = -1
 	w.arm(1 << 17)
 	w.runOptLists(seed, idx)
+	// ... and keys of objects that come into being by expansion (expand.go)
+	w.ol = nil
+	w.law = -1
+	w.arm(1 << 17)
+	w.runExpansions(seed, idx)
 	return res.Done()
 }
 
